@@ -42,6 +42,7 @@ type c16Case struct {
 	CfgSymlink bool   `json:"cfgsymlink"` // the configuration file is a symbolic link to the real file
 	CfgPad     int    `json:"cfgpad"`     // bytes of comment lines before the first section of the configuration file
 	NoDBFalse  bool   `json:"nodbfalse"`  // --no-database=false is given: must behave as if the switch were absent
+	Dollar     bool   `json:"dollar"`     // the file names contain $HOME / ${USER}: they are names, not references
 }
 
 var c16Formats = []string{"2006/01/02", "2006-01-02", "02.01.2006", "20060102", "02/01/2006", "2006/01/02"} // index 0 = default, 5 = default given explicitly
@@ -79,6 +80,9 @@ func checkC16(c c16Case, ctx *vCtx) *vFailure {
 		if v == 5 {
 			return "10"
 		}
+		if v == 6 {
+			return "0"
+		}
 		return fmt.Sprint(v)
 	}
 	bookK, bookLevel := c16Pick(c.Book, hasCfg, 5)
@@ -86,6 +90,9 @@ func checkC16(c c16Case, ctx *vCtx) *vFailure {
 	depthIdx, depthLevel := c16Pick(c.Depth, hasCfg, 10)
 	if depthIdx == 5 {
 		depthIdx = 10
+	}
+	if depthIdx == 6 {
+		depthIdx = 0 // a depth of zero given explicitly: nothing resolves
 	}
 	todaySrc := c.Today
 	todaySrc.Env = 0
@@ -110,11 +117,17 @@ func checkC16(c c16Case, ctx *vCtx) *vFailure {
 		if k == 5 {
 			return filepath.Join(cwd, "food.yaml")
 		}
+		if c.Dollar {
+			return filepath.Join(root, fmt.Sprintf("book-$HOME-${USER}-%d.yaml", k))
+		}
 		return filepath.Join(root, fmt.Sprintf("book-%d.yaml", k))
 	}
 	logPath := func(k int) string {
 		if k == 5 {
 			return filepath.Join(cwd, "log.yaml")
+		}
+		if c.Dollar {
+			return filepath.Join(root, fmt.Sprintf("log-$PATH-%d.yaml", k))
 		}
 		return filepath.Join(root, fmt.Sprintf("log-%d.yaml", k))
 	}
@@ -451,12 +464,18 @@ func genC16(t *rapid.T) c16Case {
 		EqualsForm: rapid.Bool().Draw(t, "equals"),
 		CfgSymlink: rapid.IntRange(0, 3).Draw(t, "symlink") == 0,
 		NoDBFalse:  rapid.IntRange(0, 5).Draw(t, "nodbfalse") == 0,
+		Dollar:     rapid.IntRange(0, 3).Draw(t, "dollar") == 0,
 	}
 	if rapid.IntRange(0, 3).Draw(t, "pad") == 0 {
 		c.CfgPad = []int{3000, 4090, 5000, 20000}[rapid.IntRange(0, 3).Draw(t, "padn")]
 	}
 	if c.Channel != "none" && c.Channel != "default" {
 		c.CfgMissing = rapid.IntRange(0, 9).Draw(t, "missing") == 0
+	}
+	if c.Depth.Flag != 0 && rapid.IntRange(0, 5).Draw(t, "depthzero") == 0 {
+		c.Depth.Flag = 6
+	} else if c.Depth.Env != 0 && rapid.IntRange(0, 5).Draw(t, "depthzeroenv") == 0 {
+		c.Depth.Env = 6
 	}
 	return c
 }
@@ -535,6 +554,12 @@ func c16EnumSpace() []c16Case {
 			ch = "flag"
 		}
 		out = append(out, c16Case{Book: src, Channel: ch, NoDBFalse: true, DecoyFood: true})
+	}
+	for _, ch := range channels {
+		out = append(out, c16Case{Channel: ch, DecoyFood: true, Dollar: true, Book: c16Src{Cfg: 3}, Log: c16Src{Cfg: 2}})
+		out = append(out, c16Case{Channel: ch, DecoyFood: true, Dollar: true, Book: c16Src{Flag: 1, Cfg: 3}, Log: c16Src{Env: 4, Cfg: 2}})
+		out = append(out, c16Case{Channel: ch, DecoyFood: true, Depth: c16Src{Flag: 6, Cfg: 3}})
+		out = append(out, c16Case{Channel: ch, DecoyFood: true, Depth: c16Src{Env: 6, Cfg: 3}})
 	}
 	// explicit config: existing vs missing, --no-database in every environment
 	for _, ch := range []string{"flag", "env"} {
